@@ -69,6 +69,12 @@ def const_str(e: ast.AST) -> str | None:
     return None
 
 
+def RELOCATABLE_SET():
+    from .anchors import RELOCATABLE
+
+    return set(RELOCATABLE)
+
+
 @dataclass
 class Def:
     qual: str
@@ -231,6 +237,52 @@ class Repo:
         self._callcache: dict[int, list[Target]] = {}
         self._load(include_tests)
         self._index_defs()
+        self.relocations: dict[str, str] = {}
+        self._apply_relocations()
+
+    def _apply_relocations(self) -> None:
+        """Index a relocated private helper under its anchor name (see _relocated): every
+        rule, the resolver and the effect summaries then see one stable name; reports carry
+        the real file:line."""
+        from .anchors import RELOCATABLE
+
+        for q in RELOCATABLE:
+            if q in self.defs:
+                continue
+            d = self._relocated(q)
+            if d is None:
+                continue
+            old = d.qual
+            self.relocations[q] = old
+            for k in [k for k in list(self.defs) if k == old or k.startswith(old + ".")]:
+                dd = self.defs.pop(k)
+                dd.qual = q + k[len(old):]
+                self.defs[dd.qual] = dd
+        self.__dict__.pop("_reloc_cache", None)
+        # renamed private helpers: found by the role they play for a stable caller
+        from .anchors import ROLE_OF
+
+        for q, (caller_q, mentions_all) in ROLE_OF.items():
+            if q in self.defs or caller_q not in self.defs:
+                continue
+            caller = self.defs[caller_q]
+            cands = []
+            for c in caller.own_nodes():
+                if isinstance(c, ast.Call):
+                    for t in self.resolve_call(c, caller, caller.module):
+                        if t.kind == "def" and t.ref.is_func and t.ref.name.startswith("_") or (t.kind == "def" and t.ref.is_func and t.ref.module is caller.module):
+                            src = ast.dump(t.ref.node)
+                            if all(m in src for m in mentions_all) and t.ref not in cands and t.ref.qual not in RELOCATABLE_SET():
+                                cands.append(t.ref)
+            if len(cands) == 1:
+                d = cands[0]
+                old = d.qual
+                self.relocations[q] = old
+                for k in [k for k in list(self.defs) if k == old or k.startswith(old + ".")]:
+                    dd = self.defs.pop(k)
+                    dd.qual = q + k[len(old):]
+                    self.defs[dd.qual] = dd
+        self._callcache.clear()
 
     # -- loading -----------------------------------------------------------
     def _load(self, include_tests: bool) -> None:
@@ -371,8 +423,44 @@ class Repo:
     def get(self, qual: str) -> Def:
         d = self.defs.get(qual)
         if d is None:
+            d = self._relocated(qual)
+        if d is None:
             raise AnalysisError(f"anchor not found: {qual}")
         return d
+
+    def _relocated(self, qual: str) -> Def | None:
+        """A *private* helper that was moved (method ↔ module function, other module of the
+        package) or had its leading underscore added/removed keeps its role: if exactly one
+        definition of that (normalised) name exists in the package, that is the anchor.  Public
+        names are interface and are never re-resolved; nested definitions keep their parent
+        chain's last name.  Recorded in `self.relocations` (shown in evidence notes)."""
+        cache = self.__dict__.setdefault("_reloc_cache", {})
+        if qual in cache:
+            return cache[qual]
+        name = qual.rsplit(".", 1)[-1]
+        base = name.lstrip("_")
+        found = None
+        if base and not (name.startswith("__") and name.endswith("__")):
+            old_parent = qual.rsplit(".", 2)[-2] if qual.count(".") >= 2 else ""
+            cands = [
+                d
+                for d in self.defs.values()
+                if d.is_func
+                and d.name.lstrip("_") == base
+                and (d.name.startswith("_") or name.startswith("_"))
+                and not d.module.qual.startswith(("cubed.vendor.", "cubed.tests."))
+                and "#" not in d.qual
+            ]
+            # a nested helper must still be nested in a function of the same name
+            was_nested = any(k.rsplit(".", 1)[0] == qual.rsplit(".", 1)[0] and v.is_func for k, v in self.defs.items()) and False
+            if len(cands) > 1:
+                same_parent = [d for d in cands if d.parent is not None and d.parent.name == old_parent]
+                cands = same_parent if len(same_parent) == 1 else cands
+            if len(cands) == 1:
+                found = cands[0]
+                self.__dict__.setdefault("relocations", {})[qual] = found.qual
+        cache[qual] = found
+        return found
 
     def maybe(self, qual: str) -> Def | None:
         return self.defs.get(qual)
